@@ -283,7 +283,7 @@ func (g *gen) pregel(d int) Graph {
 	}
 	fillEdges(nodes, es)
 	max := 0
-	if r.Chance(1, 3) {
+	if r.Chance(1, 3) || (d > 0 && r.Chance(1, 2)) {
 		max = r.Range(1, n+3)
 	}
 	return Graph{Front: "graph", Mode: "pregel", Max: max, Nodes: nodes}
@@ -408,6 +408,21 @@ func (g *gen) dag(d int) Graph {
 		}
 		if sink && len(nodes[i+1].Branches) == 0 && r.Chance(3, 4) {
 			es[[2]uint64{keys[i], END}] = true
+		}
+	}
+	// START needs an outgoing control edge or branch ("start node not set" otherwise)
+	startOut := len(nodes[0].Branches) > 0
+	for e := range es {
+		if e[0] == START {
+			startOut = true
+		}
+	}
+	if !startOut {
+		for i := 0; i < n; i++ {
+			if i != orphan {
+				es[[2]uint64{START, keys[i]}] = true
+				break
+			}
 		}
 	}
 	fillEdges(nodes, es)
